@@ -8,7 +8,7 @@ HARNESS_FILES = ['pkg/frame/zz_verif_common.go', 'pkg/frame/zz_verif_dialect.go'
                  'pkg/frame/zz_verif_msgs.go', 'pkg/timednetconn/zz_verif_c14.go', 'zz_verif_node.go', 'zz_verif_c14.go', 'zz_verif_c10.go', 'zz_verif_c11.go', 'zz_verif_life.go']
 KERNEL_PKGS = ['.']
 CLOCK_PKGS = ['.', 'pkg/timednetconn']
-ROOTS = [r'verifHarness_C14']
+ROOTS = [r'verifHarness_C14', r'v3\.verifHarness_C10_consumer']
 ALLOW = 'bufio,io,encoding/binary,errors,bytes,time'
 INITS = 'io,bufio,errors,time,github.com/bluenviron/gomavlib/v3/pkg/message,github.com/bluenviron/gomavlib/v3/pkg/frame'
 OPTIONS = {'now_stub': True}
@@ -47,11 +47,13 @@ def tasks(tier):
     for one in (0, 1):
         for cd in (0, 1):
             ts.append(Task('verifHarness_C14_provider', [one, cd]))
+    # the channel is not declared done (what a one-channel-at-a-time provider waits for) before its close event is delivered
+    ts.append(Task('verifHarness_C10_consumer', [0, 0], {'x25_uf': True}))
     return ts
 
 
 def required_reach(tier):
-    return ['C14/T1', 'C14/T2s', 'C14/T2c', 'C14/T3', 'C14/T4', 'C14/L2', 'C14/T2t', 'C14/T2b', 'C14/T1p', 'C14/T5']
+    return ['C14/T1', 'C14/T2s', 'C14/T2c', 'C14/T3', 'C14/T4', 'C14/L2', 'C14/T2t', 'C14/T2b', 'C14/T1p', 'C14/T5', 'C10/C']
 
 
 def bounds(tier):
